@@ -1,7 +1,7 @@
 // Replay searcher for C01 / C11 / C13 (NOT the deciding check: it is run only after a contract obligation failed or an
 // annotation anchor was lost, to turn the failed obligation into a concrete failing input on the real code).
-// Integration test over the public API; select with VERIF_SEARCH=c01|c11|c13.
-use preflate_rs::{compress_zstd, decompress_zstd, expand_zlib_chunks, recreated_zlib_chunks};
+// Integration test over the public API; select with VERIF_SEARCH=c01|c06|c11|c12|c13.
+use preflate_rs::{compress_zstd, decompress_zstd, expand_zlib_chunks, recreated_zlib_chunks, WrapperCompressZip, WrapperDecompressZip};
 use std::io::{Read, Write};
 
 fn crc32(data: &[u8]) -> u32 {
@@ -216,6 +216,38 @@ fn verif_search() {
                     let res = std::panic::catch_unwind(std::panic::AssertUnwindSafe(|| recreated_zlib_chunks(&mut src, &mut dst).is_ok()));
                     match res { Err(_) => report(&which, &format!("panic on sink error at {}", kw), f), Ok(ok) => { if ok && kw < f.len() { report(&which, &format!("Ok despite sink error at {}", kw), f); } } }
                     if !f.starts_with(&dst.out) { report(&which, &format!("bytes written before a sink error at {} are not a prefix", kw), f); }
+                }
+            }
+            "c12" => {
+                if f.len() > 20000 { continue; }
+                const G: usize = 16;
+                let guarded = |cap: usize| vec![0xA5u8; cap + 2 * G];
+                let guards_ok = |b: &[u8], cap: usize| b[..G].iter().all(|&x| x == 0xA5) && b[G + cap..].iter().all(|&x| x == 0xA5);
+                let mut comp = guarded(f.len() + 10000);
+                let ccap = f.len() + 10000;
+                let mut csize = u64::MAX;
+                let rc = unsafe { WrapperCompressZip(f.as_ptr(), f.len() as u64, comp.as_mut_ptr().add(G), ccap as u64, &mut csize) };
+                if rc != 0 { report(&which, &format!("WrapperCompressZip returned {} with an ample buffer", rc), f); }
+                if csize as usize > ccap || !guards_ok(&comp, ccap) { report(&which, "WrapperCompressZip: result_size beyond the buffer or guard bytes overwritten", f); }
+                let z = comp[G..G + csize as usize].to_vec();
+                for cap in [0usize, 1, z.len() / 2, z.len().saturating_sub(1)] {
+                    if cap >= z.len() { continue; }
+                    let mut b = guarded(cap); let mut rs = u64::MAX;
+                    let rc = unsafe { WrapperCompressZip(f.as_ptr(), f.len() as u64, b.as_mut_ptr().add(G), cap as u64, &mut rs) };
+                    if !guards_ok(&b, cap) { report(&which, &format!("WrapperCompressZip wrote outside a {}-byte buffer", cap), f); }
+                    if rc == 0 && rs as usize > cap { report(&which, &format!("WrapperCompressZip returned 0 with result_size {} > capacity {}", rs, cap), f); }
+                    if rc >= 0 { report(&which, &format!("WrapperCompressZip returned {} for an undersized buffer ({} < {})", rc, cap, z.len()), f); }
+                }
+                for cap in [0usize, 1, f.len() / 2, f.len().saturating_sub(1), f.len(), f.len() + 7] {
+                    let mut b = guarded(cap); let mut rs = u64::MAX;
+                    let rc = unsafe { WrapperDecompressZip(z.as_ptr(), z.len() as u64, b.as_mut_ptr().add(G), cap as u64, &mut rs) };
+                    if !guards_ok(&b, cap) { report(&which, &format!("WrapperDecompressZip wrote outside a {}-byte buffer", cap), f); }
+                    if cap < f.len() {
+                        if rc >= 0 { report(&which, &format!("WrapperDecompressZip returned {} for an undersized buffer ({} < {}), result_size {}", rc, cap, f.len(), rs), f); }
+                    } else {
+                        if rc != 0 { report(&which, &format!("WrapperDecompressZip returned {} with capacity {} >= {}", rc, cap, f.len()), f); }
+                        if rs as usize != f.len() || &b[G..G + f.len()] != &f[..] { report(&which, &format!("wrapper round trip differs at capacity {}", cap), f); }
+                    }
                 }
             }
             _ => panic!("unknown VERIF_SEARCH"),
